@@ -101,7 +101,6 @@ fn parse_roundtrip<const N: usize>() {
     assert!(off == ml, "TLVs yielded by the iterator cover the suffix exactly");
 
     kani::cover!(count >= 1 && ml < n && bytes[6] & 0x98 != 0, "accepted: TLV present, trailing padding, reserved flag bits set");
-    kani::cover!(count >= 2 || N < 56, "accepted message with two TLVs");
 }
 
 #[kani::proof]
@@ -267,7 +266,6 @@ fn build_case<const W: usize>(kind: u8, ntlv: usize, l0: usize, l1: usize) {
         assert!(it.next().is_none(), "no further TLVs");
     }
     kani::cover!(back.is_ok() && ntlv == 2 && l0 == 0 && l1 == 4, "round trip with two TLVs, the first empty-valued");
-    kani::cover!(back.is_ok() && ntlv <= 1, "round trip with at most one TLV");
 }
 
 #[derive(Clone, Copy, PartialEq)]
